@@ -205,7 +205,7 @@ class error_997_visitor(error_visitor.error_visitor):
         #seg = ['AK1', err_gs.fic, err_gs.gs_control_num]
         #self._write(seg)
         self._write(pyx12.segment.Segment('AK1*%s*%s' %
-                                          (err_gs.fic, err_gs.gs_control_num), '~', '*', ':'))
+                                          (err_gs.fic or '', err_gs.gs_control_num or ''), '~', '*', ':'))
 
     def __get_gs_errors(self, err_gs):
         """
@@ -294,7 +294,7 @@ class error_997_visitor(error_visitor.error_visitor):
         """
         seg_data = pyx12.segment.Segment('AK2', '~', '*', ':')
         seg_data.append(err_st.trn_set_id)
-        seg_data.append(err_st.trn_set_control_num.strip())
+        seg_data.append((err_st.trn_set_control_num or '').strip())
         self._write(seg_data)
 
     def __get_st_errors(self, err_st):
